@@ -4,6 +4,7 @@ CONSTANTS
   Procs = {1,2,3}
   Fixed = FALSE
   EnableFirst = TRUE
+  Mon = TRUE
 INVARIANTS LinWeak
 PROPERTY NoLostWakeup
 PROPERTY Progress
